@@ -16,10 +16,10 @@ GOFLAGS= GOPROXY=off go test -count=1 ./... 2>&1 | grep -v "no test files" | tee
 grep -E "^(FAIL|---)" $log | head
 cp $SD/demo_test.go $DEMODIR/zz_seed_demo_test.go
 echo "== demo with change (must fail)" | tee -a $log
-GOFLAGS= GOPROXY=off go test -count=1 -run 'Demo' ./$DEMODIR/ 2>&1 | tail -3 | tee -a $log
+GOFLAGS= GOPROXY=off go test -count=1 -run 'Demo|TestC09Paused' ./$DEMODIR/ 2>&1 | tail -3 | tee -a $log
 git checkout -q -- . 
 echo "== demo without change (must pass)" | tee -a $log
-GOFLAGS= GOPROXY=off go test -count=1 -run 'Demo' ./$DEMODIR/ 2>&1 | tail -3 | tee -a $log
+GOFLAGS= GOPROXY=off go test -count=1 -run 'Demo|TestC09Paused' ./$DEMODIR/ 2>&1 | tail -3 | tee -a $log
 rm -f $DEMODIR/zz_seed_demo_test.go; git clean -fdq
 echo "== my checks on /repo with the change" | tee -a $log
 if [ -n "$(git -C /repo status --porcelain)" ]; then echo "/repo is dirty: commit first"; exit 1; fi
